@@ -9,6 +9,7 @@ from __future__ import annotations
 import json
 
 from vlib import core, evqe
+from vlib import translate
 
 IMPORTS = "From QV Require Import Evqe.Circuit Evqe.C04Check.\nOpen Scope Z_scope.\nOpen Scope string_scope."
 
@@ -175,6 +176,7 @@ def gen_case(rng, n=None, L=None):
 
 
 def run(ctx):
+    translate.check_link(ctx, "C04")  # regenerate Gallina from /repo's current source; link lemmas coq/link/C04Link.v
     ctx.rule = ("random valid individuals, 1-13 qubits x 1-14 layers (both >= 11 occur: 'layer10' and 'q10' string-order effects), 12% parameterless layers, pairwise different values; "
                 "S = none / all / random subset incl. negative ids; k any integer in [-L, 2L); thorough: also every layer count 1-25 at 2 qubits; "
                 "distinct = distinct (individual, S, k, new); non-trivial = individual has at least one parameter")
@@ -215,6 +217,8 @@ def run(ctx):
 
 
 def replay(ctx, payload):
+    if translate.is_link_replay(payload) and not payload.get("failing_input"):
+        return translate.replay(ctx, payload, "C04")  # a replay file written for a broken translation tie
     c = payload.get("case") or payload.get("failing_input")
     g = do_case(ctx, c)
     for v in ctx.violations:
